@@ -451,3 +451,91 @@ def _remaining_ms(ex, d, args, kwargs, node):
 @meth("Deadline", "remaining_seconds", tb="TB-time")
 def _remaining_s(ex, d, args, kwargs, node):
     return VFloat()
+
+
+# ---------------------------------------------------------------------------
+# operator / optimizer classes as records (their constructors only store the state dict)
+# ---------------------------------------------------------------------------
+def _mk_instance(clsname):
+    def ctor(ex, args, kwargs, node):
+        es = args[0] if args else kwargs.get("epistemic_state")
+        ref = ex.st.alloc({"kind": "obj", "cls": clsname, "fields": {"epistemic_state": es}})
+        return VRef(ref, TObj(clsname, {}))
+
+    return ctor
+
+
+for _mod, _cls in (
+    ("inference.p_entailment", "PEntailment"),
+    ("inference.system_z", "SystemZ"),
+    ("inference.system_w", "SystemW"),
+    ("inference.system_w_z3", "SystemWZ3"),
+    ("inference.lex_inf", "LexInf"),
+    ("inference.lex_inf_z3", "LexInfZ3"),
+    ("inference.c_inference", "CInference"),
+    ("inference.optimizer", "OptimizerRC2"),
+):
+    fn(f"{_mod}:{_cls}", tb="TB-py")(_mk_instance(_cls))
+
+StartsWith = z3.Function("StartsWith", StrSort, StrSort, L.Bool)
+
+
+@meth("str", "startswith", tb="TB-py")
+def _startswith(ex, s, args, kwargs, node):
+    return VBool(StartsWith(s.t, args[0].t))
+
+
+@meth("str", "lower", tb="TB-py")
+def _lower(ex, s, args, kwargs, node):
+    return VStr(z3.Function("lower", StrSort, StrSort)(s.t))
+
+
+# ---------------------------------------------------------------------------
+# TB-antlr (visitor level): parse-tree contexts are opaque nodes with named children;
+# `self.visit(child)` denotes the meaning sem(child) of that subtree
+# ---------------------------------------------------------------------------
+Ctx = z3.DeclareSort("Ctx")
+sem = z3.Function("sem", Ctx, L.Formula)
+child = {n: z3.Function(f"child_{n}", Ctx, Ctx) for n in ("left", "right", "formula", "atom", "consequent", "antecedent")}
+tok_text = z3.Function("tok_text", Ctx, StrSort)
+f_sym = z3.Function("f_sym", StrSort, L.Formula)  # Symbol(name, BOOL)
+
+
+class VCtx(V):
+    def __init__(self, t):
+        self.t = t
+        self.ty = TCtx
+
+
+class _TCtx(T):
+    def fresh(self, name, st):
+        return VCtx(st.fresh_const(name, Ctx))
+
+    def sort(self):
+        return Ctx
+
+    def wrap(self, t):
+        return VCtx(t)
+
+
+TCtx = _TCtx()
+
+
+@fn("pysmt.shortcuts.Symbol", tb="TB-fml")
+def _symbol(ex, args, kwargs, node):
+    if not isinstance(args[0], VStr):
+        raise Unsupported("Symbol(name) with non-string")
+    return VForm(f_sym(args[0].t))
+
+
+@meth("Ctx", "formula", tb="TB-antlr")
+def _ctx_formula(ex, c, args, kwargs, node):
+    return VCtx(child["formula"](c.t))
+
+
+@meth("myVisitor", "visit", tb="TB-antlr")
+def _visit(ex, v, args, kwargs, node):
+    (c,) = args
+    if not isinstance(c, VCtx):
+        raise Unsupported("visit of a non-context")
+    return VForm(sem(c.t))
